@@ -21,6 +21,13 @@ type Solver struct {
 var solvers = []Solver{
 	{"z3-new", func(f string, t int) []string { return []string{"z3-new", fmt.Sprintf("-T:%d", t), "-smt2", f} }},
 	{"z3", func(f string, t int) []string { return []string{"z3", fmt.Sprintf("-T:%d", t), "-smt2", f} }},
+	// pure E-matching configurations: much faster on obligations with many triggered quantifiers
+	{"z3-new-ematch", func(f string, t int) []string {
+		return []string{"z3-new", fmt.Sprintf("-T:%d", t), "smt.mbqi=false", "auto_config=false", "-smt2", f}
+	}},
+	{"z3-ematch", func(f string, t int) []string {
+		return []string{"z3", fmt.Sprintf("-T:%d", t), "smt.mbqi=false", "auto_config=false", "-smt2", f}
+	}},
 	{"cvc5", func(f string, t int) []string {
 		return []string{"cvc5", fmt.Sprintf("--tlimit=%d", t*1000), "--lang=smt2", f}
 	}},
@@ -100,7 +107,7 @@ func Discharge(o *Obligation, dir string, timeoutS int, all bool) {
 		o.Status, o.Solver = "discharged", "trivial"
 		return
 	}
-	if o.Cover && timeoutS > 3 {
+	if (o.Cover || strings.HasSuffix(o.Name, "~finding")) && timeoutS > 3 {
 		timeoutS = 3 // vacuity guards only need a quick sat / unsat; unknown is not a failure
 	}
 	file := filepath.Join(dir, fmt.Sprintf("%s_%d.smt2", mangle(o.Name), atomic.AddInt64(&smtSeq, 1)))
